@@ -211,7 +211,10 @@ func runGenerator() (map[string]string, error) {
 			}
 		}
 		for _, where := range places {
-			for _, edit := range []string{"retire", "remove", "add", "add-without-flag", "drop-flag"} {
+			for _, edit := range []string{"retire", "remove", "add", "add-without-flag", "drop-flag", "add-long"} {
+				if edit == "add-long" && where.name != "middle" {
+					continue
+				}
 				cp := make([]any, 0, len(arr)+1)
 				for i, e := range arr {
 					m, _ := e.(map[string]any)
@@ -229,6 +232,8 @@ func runGenerator() (map[string]string, error) {
 						continue
 					case i == where.i && edit == "add":
 						cp = append(cp, map[string]any{js.idKey: "Verif-Added-1.0", js.depKey: false})
+					case i == where.i && edit == "add-long":
+						cp = append(cp, map[string]any{js.idKey: c12LongID, js.depKey: false})
 					case i == where.i && edit == "add-without-flag":
 						// an entry that says nothing about deprecation is not deprecated
 						cp = append(cp, map[string]any{js.idKey: "Verif-Added-1.0"})
@@ -284,11 +289,42 @@ func runGenerator() (map[string]string, error) {
 				if err := run(scn, func(f string) []byte { return committed[f] }, jsons, want); err != nil {
 					return nil, err
 				}
+				if edit == "add-long" {
+					// the library built with the refreshed tables must accept the new id in its role
+					// (an id longer than every id listed today: limits derived from the present data show here)
+					probeDir := filepath.Join(scratch, "verifprobe")
+					os.MkdirAll(probeDir, 0o755)
+					form := c12LongID
+					if js.file == "exceptions.json" {
+						form = "MIT WITH " + c12LongID
+					}
+					src := "package main\n\nimport (\n\t\"fmt\"\n\n\t\"github.com/github/go-spdx/v2/spdxexp\"\n)\n\nfunc main() {\n\tok, bad := spdxexp.ValidateLicenses([]string{" + fmt.Sprintf("%q", form) + "})\n\tfmt.Printf(\"valid=%v invalid=%q\\n\", ok, bad)\n}\n"
+					if err := os.WriteFile(filepath.Join(probeDir, "main.go"), []byte(src), 0o644); err != nil {
+						return nil, err
+					}
+					pc := exec.Command("go", "run", "./verifprobe")
+					pc.Dir = scratch
+					pc.Env = append(os.Environ(), "GOFLAGS=-mod=mod", "GOPROXY=off", "GOSUMDB=off", "GOTOOLCHAIN=local", "GOMAXPROCS=4")
+					out, err := pc.CombinedOutput()
+					key := "runtime:" + js.file + ":added-long-id/ValidateLicenses"
+					switch {
+					case err != nil:
+						res[key] = fmt.Sprintf("the library does not build or run with the regenerated tables: %v: %s", err, first(string(out), 300))
+					case !strings.HasPrefix(string(out), "valid=true"):
+						res[key] = fmt.Sprintf("after a refresh that adds the id %q (%d bytes) the rebuilt library answers ValidateLicenses([%q]): %s", c12LongID, len(c12LongID), form, strings.TrimSpace(string(out)))
+					default:
+						res[key] = ""
+					}
+					os.RemoveAll(probeDir)
+				}
 			}
 		}
 	}
 	return res, nil
 }
+
+// an id longer than every id on today's lists
+var c12LongID = "Verif-Added-" + strings.Repeat("long-", 12) + "1.0"
 
 // modelGenFile: the committed file's own header (up to the first id line) and footer (after the last
 // id line) around one line per id.
@@ -393,7 +429,7 @@ func init() {
 		ID:       "C12",
 		Title:    "shipped license tables = SPDX source data",
 		Explorer: "E1 complete enumeration of a finite configuration (every id of both JSON files and of the three Go tables) + real generator re-run",
-		Rule: "state = one id in one role/form; transitions = ValidateLicenses/ExtractLicenses calls on it; the generator is built in a scratch copy of the working tree and run once per scenario = (state of the output files before the run: absent / as committed / lengthened / cut short) or (one JSON entry retired / removed / added / added without a deprecation flag / stripped of its flag, at the first, a middle, the last position and right after a deprecated entry, regenerated over the committed files), its three outputs compared byte for byte with the committed files resp. with header + ids of the edited JSON + footer; " +
+		Rule: "state = one id in one role/form; transitions = ValidateLicenses/ExtractLicenses calls on it; the generator is built in a scratch copy of the working tree and run once per scenario = (state of the output files before the run: absent / as committed / lengthened / cut short) or (one JSON entry retired / removed / added / added without a deprecation flag / stripped of its flag, at the first, a middle, the last position and right after a deprecated entry, regenerated over the committed files; for an added id longer than every listed id the library is also rebuilt with the regenerated tables and must accept the id in its role), its three outputs compared byte for byte with the committed files resp. with header + ids of the edited JSON + footer; " +
 			"JSON-derived sequences compared with GetLicenses/GetDeprecated/GetExceptions; lists checked pairwise disjoint and fold-unique; every license id accepted alone, every exception id accepted after WITH and rejected in 11 other forms; each table getter called, its result overwritten / filtered in place / appended to, and called again (the tables must not be reachable through what a getter returns); " +
 			"non-trivial = ids checked in the exception-rejection forms and suffix forms (where acceptance is not a plain list lookup)",
 		Assumptions: []string{"encoding/json with the generator's own field names is the reading of the SPDX JSON", "the stale cmd/*_ids.json|txt files are not produced by the current generator and are outside the claim"},
